@@ -1,4 +1,5 @@
 import GitBugModel.Model.Bug
+import GitBugModel.Lemmas.CompileRepeat
 /-!
 # C10 — a bug's state is exactly the documented interpretation of its operations
 
@@ -525,5 +526,24 @@ example : (compile cmb demo).title = "T1" ∧ (compile cmb demo).status = 2 ∧
     (compile cmb demo).timeline.length = 6 ∧
     ((compile cmb demo).ops.map (·.extra)) = [[], [("k", "v1")], [], [], [], [], [], [], [], [], []] := by
   decide
+
+/-! ## recompiling a compiled snapshot -/
+
+/-- `compile_ignores_extras`: everything a compile produces except the extra metadata on the operations
+(id, status, title, comments, labels, author, actors, participants, times, timeline, and the
+operations themselves) is a function of the bare operations alone: two operation lists that differ
+only in extra metadata compile to snapshots that differ only there. -/
+theorem compile_ignores_extras (ops ops' : List SOp) (h : ops.map (·.op) = ops'.map (·.op)) :
+    ∃ l, compile comb ops' = { compile comb ops with ops := l } ∧ l.map (·.op) = (compile comb ops).ops.map (·.op) :=
+  GitBugModel.Lemmas.CompileRepeat.compile_ignores_extras comb ops ops' h
+
+/-- `compile_repeatable` (full statement): compiling the operations of a compiled snapshot again gives
+exactly the same snapshot, the extra metadata on the operations included.  (`Bug.Compile` reads
+`bug.Operations()`, whose elements already carry what earlier compiles attached.) -/
+theorem compile_repeatable (ops : List SOp) : compile comb (compile comb ops).ops = compile comb ops :=
+  GitBugModel.Lemmas.CompileRepeat.compile_repeatable comb ops
+
+example : compile cmb (compile cmb demo).ops = compile cmb demo := compile_repeatable cmb demo
+example : compile cmb (compile cmb demo).ops = compile cmb demo := by decide
 
 end GitBugModel.Props.C10
